@@ -256,6 +256,7 @@ def image_constructor_sites(repo, tier):
     classes = image_classes(dt)
     obls, fns = [], []
     n_sites = 0
+    n_none = 0
     for rel, mod in modules(repo).items():
         ix = Index(mod)
         per_fn = {}
@@ -303,6 +304,19 @@ def image_constructor_sites(repo, tier):
                     oid = f"C04/{short(rel)}::{q}/call-pre#{cls}-size_bytes-is-len-of-payload@{k}"
                     p_e, z_e = kw.get(pf, defaults.get(pf)), kw.get(SIZE_FIELD, defaults.get(SIZE_FIELD))
                     obls.append(_size_obligation(oid, rel, call, fnode, cls, pf, p_e, z_e, pf in kw, SIZE_FIELD in kw))
+                # ---- declared types at the constructor (DT-TYPED is what the accessor contracts assume): no recognised source of
+                # None may reach a field declared int / str / bytes
+                anns = _field_annotations(dt, cls)
+                for f_, e_ in sorted(kw.items()):
+                    if anns.get(f_) in ("int", "str", "bytes", "float", "bool") and isinstance(fnode, (ast.FunctionDef, ast.AsyncFunctionDef)):
+                        why = may_be_none(mod, fnode, e_, 0, ix, ix.stmt_of(call))
+                        if why:
+                            o = ground_obligation(f"C04/{short(rel)}::{q}/call-pre#{cls}-{f_}-not-from-a-None-source@{k}", False,
+                                                  f"{rel}:{call.lineno} {cls}({f_}={ast.unparse(e_)[:40]}): the field is declared {anns[f_]} but {why}; the accessors "
+                                                  f"compare / strip it without a None test", rel, definite=False)
+                            o["replay_hint"] = {"kind": "image-type", "class": cls}
+                            obls.append(o)
+                            n_none += 1
                 # ---- image number >= 1
                 if nf is not None:
                     oid = f"C04/{short(rel)}::{q}/call-pre#{cls}-{nf}-positive@{k}"
@@ -328,6 +342,120 @@ def image_constructor_sites(repo, tier):
     obls.append(ground_obligation("C04/package/call-pre#image-constructor-sites-scanned", n_sites >= 20,
                                   f"{n_sites} image constructor call sites in the parsing package", "package"))
     return {"obligations": obls, "functions": fns}
+
+
+def _field_annotations(dt, cls):
+    out = {}
+    node = dt.classes.get(cls)
+    if node is None:
+        return out
+    for b in node.bases:
+        bn = ast.unparse(b).split(".")[-1]
+        if bn in dt.classes and bn != cls:
+            out.update(_field_annotations(dt, bn))
+    for b in node.body:
+        if isinstance(b, ast.AnnAssign) and isinstance(b.target, ast.Name):
+            out[b.target.id] = ast.unparse(b.annotation)
+    return out
+
+
+def may_be_none(mod, fnode, e, depth=0, ix=None, at=None):
+    """Reason why expression e can be None according to the recognised sources (None constant, a package function whose return
+    annotation / return statements include None at that position, dict.get without default), '' otherwise.  A name that the
+    function tests against None / falsiness or re-binds with `or <default>` is considered handled."""
+    if depth > 4 or e is None:
+        return ""
+    if isinstance(e, ast.Constant):
+        return "it is the constant None" if e.value is None else ""
+    if isinstance(e, ast.IfExp):
+        return may_be_none(mod, fnode, e.body, depth + 1) or may_be_none(mod, fnode, e.orelse, depth + 1)
+    if isinstance(e, ast.BoolOp) and isinstance(e.op, ast.Or):
+        return may_be_none(mod, fnode, e.values[-1], depth + 1)
+    if isinstance(e, ast.Call):
+        if isinstance(e.func, ast.Attribute) and e.func.attr == "get" and len(e.args) == 1 and not e.keywords:
+            return f"{ast.unparse(e)[:30]} is None for a missing key"
+        return _call_none(mod, e, None)
+    if isinstance(e, ast.Name):
+        for n in own_walk(fnode):
+            if isinstance(n, ast.Compare) and isinstance(n.left, ast.Name) and n.left.id == e.id and any(isinstance(o, (ast.Is, ast.IsNot)) for o in n.ops):
+                return ""
+            if isinstance(n, ast.UnaryOp) and isinstance(n.op, ast.Not) and isinstance(n.operand, ast.Name) and n.operand.id == e.id:
+                return ""
+            if isinstance(n, (ast.If, ast.IfExp, ast.While)) and isinstance(n.test, ast.Name) and n.test.id == e.id:
+                return ""
+            if isinstance(n, ast.BoolOp) and any(isinstance(v, ast.Name) and v.id == e.id for v in n.values[:-1]):
+                return ""
+        defs = single_defs(fnode, e.id)
+        if at is not None and ix is not None:
+            dom = _dominating_def(ix, fnode, at, e.id)
+            if dom is not None:
+                defs = [dom]
+        for d in defs:
+            if d[0] == "assign":
+                w = may_be_none(mod, fnode, d[1], depth + 1)
+            elif d[0] == "unpack" and isinstance(d[1], ast.Call):
+                w = _call_none(mod, d[1], d[2])
+            else:
+                w = ""
+            if w:
+                return w
+    return ""
+
+
+def _dominating_def(ix, fnode, stmt, name):
+    """The latest unconditional binding of `name` that precedes `stmt` in its block or an enclosing block (as a single_defs
+    record), else None."""
+    cur = stmt
+    while cur is not None and cur is not fnode:
+        parent = ix.parent.get(id(cur))
+        if parent is None:
+            return None
+        for fld_ in ("body", "orelse", "finalbody"):
+            blk = getattr(parent, fld_, None)
+            if isinstance(blk, list) and cur in blk:
+                for s_ in reversed(blk[:blk.index(cur)]):
+                    if isinstance(s_, ast.Assign) and len(s_.targets) == 1:
+                        t = s_.targets[0]
+                        if isinstance(t, ast.Name) and t.id == name:
+                            return ("assign", s_.value, s_)
+                        if isinstance(t, (ast.Tuple, ast.List)):
+                            for i, x in enumerate(t.elts):
+                                if isinstance(x, ast.Name) and x.id == name:
+                                    return ("unpack", s_.value, i, s_)
+                    if any(isinstance(n, ast.Name) and n.id == name and isinstance(n.ctx, ast.Store) for n in ast.walk(s_)):
+                        return None          # bound conditionally in between: all definitions count
+        cur = parent if isinstance(parent, (ast.stmt, ast.ExceptHandler)) else ix.stmt_of(parent)
+    return None
+
+
+def _call_none(mod, call, index):
+    name = dotted(call.func).split(".")[-1]
+    g = mod.functions.get(name)
+    if g is None:
+        cands = [f for q, f in mod.functions.items() if q.split(".")[-1] == name and "<locals>" not in q]
+        g = cands[0] if len(cands) == 1 else None
+    if g is None:
+        return ""
+    ann = g.returns
+    if ann is not None:
+        if isinstance(ann, ast.Constant) and isinstance(ann.value, str):
+            try:
+                ann = ast.parse(ann.value, mode="eval").body
+            except SyntaxError:
+                ann = None
+    if ann is not None:
+        part = ann
+        if index is not None and isinstance(ann, ast.Subscript) and dotted(ann.value).split(".")[-1] in ("tuple", "Tuple") and isinstance(ann.slice, ast.Tuple) \
+                and index < len(ann.slice.elts):
+            part = ann.slice.elts[index]
+        txt = ast.unparse(part)
+        if "None" in txt or "Optional" in txt:
+            return f"{name}() is annotated to return {txt}" + (f" at position {index}" if index is not None else "")
+    for r in [n.value for n in own_walk(g) if isinstance(n, ast.Return) and n.value is not None]:
+        v = r.elts[index] if index is not None and isinstance(r, ast.Tuple) and index < len(r.elts) else (r if index is None else None)
+        if isinstance(v, ast.Constant) and v.value is None:
+            return f"{name}() returns None" + (f" at position {index}" if index is not None else "")
+    return ""
 
 
 def _is_value_use(ix, name_node):
@@ -1544,3 +1672,238 @@ def literal_sites(repo, tier):
                     bad.append(f"{rel}:{node.lineno}")
     return {"obligations": [ground_obligation("C04/package/wf#string-literals-have-no-surrogates", not bad,
                                               "; ".join(bad[:5]) or f"{n} string literals scanned", "package", definite=False)], "functions": []}
+
+
+# ------------------------------------------------ fresh metadata objects --
+IMMUTABLE_CALLS = ("re.compile", "frozenset", "tuple", "str", "int", "float", "bytes", "bool", "logging.getLogger", "struct.Struct", "object",
+                   "namedtuple", "TypeVar", "Path", "pathlib.Path")
+
+
+def _module_of_import(mod, name, repo):
+    """(module, attribute name) for a name imported from a package module, else (None, None)."""
+    import os
+    origin = mod.imports.get(name)
+    if not origin or not origin.startswith("sharepoint2text."):
+        return None, None
+    parts = origin.split(".")
+    rel = "/".join(parts[:-1]) + ".py"
+    if os.path.exists(os.path.join(mod.repo, rel)):
+        return loader.module(rel, mod.repo), parts[-1]
+    return None, None
+
+
+class SharedSources:
+    """Backward slice of an expression to objects that live longer than one extraction: module-level objects, mutable default
+    arguments, class attributes, dataclass field defaults built once, results of cached functions.  `found` lists them,
+    `unresolved` the places where the slice stops (parameters of entry points, third-party calls)."""
+
+    def __init__(self, repo):
+        self.repo, self.found, self.unresolved, self.seen = repo, [], [], set()
+
+    def mutable_value(self, v):
+        if isinstance(v, ast.Call):
+            return dotted(v.func) not in IMMUTABLE_CALLS and dotted(v.func).split(".")[-1] not in ("compile", "getLogger", "Struct", "frozenset", "field")
+        return isinstance(v, (ast.List, ast.Dict, ast.Set, ast.ListComp, ast.DictComp, ast.SetComp))
+
+    def module_level(self, mod, name, why):
+        v = mod.assigns.get(name)
+        if v is not None and self.mutable_value(v):
+            self.found.append(f"{why}module-level object {short(mod.rel)}::{name} = {ast.unparse(v)[:40]}")
+            return True
+        return False
+
+    def expr(self, e, fn, mod, depth=0):
+        key = (id(e), id(fn))
+        if key in self.seen or depth > 6:
+            return
+        self.seen.add(key)
+        if isinstance(e, ast.IfExp):
+            self.expr(e.body, fn, mod, depth + 1)
+            self.expr(e.orelse, fn, mod, depth + 1)
+        elif isinstance(e, ast.BoolOp):
+            for v in e.values:
+                self.expr(v, fn, mod, depth + 1)
+        elif isinstance(e, ast.NamedExpr):
+            self.expr(e.value, fn, mod, depth + 1)
+        elif isinstance(e, ast.Name):
+            self.name(e.id, fn, mod, depth)
+        elif isinstance(e, ast.Attribute):
+            self.attribute(e, fn, mod, depth)
+        elif isinstance(e, ast.Call):
+            self.call(e, fn, mod, depth)
+        elif isinstance(e, ast.Subscript):
+            self.expr(e.value, fn, mod, depth + 1)
+        elif isinstance(e, ast.Constant):
+            pass
+        else:
+            self.unresolved.append(ast.unparse(e)[:40])
+
+    def name(self, name, fn, mod, depth):
+        defs = single_defs(fn, name) if isinstance(fn, (ast.FunctionDef, ast.AsyncFunctionDef)) else []
+        if not defs:
+            if self.module_level(mod, name, ""):
+                return
+            m2, k = _module_of_import(mod, name, self.repo)
+            if m2 is not None and self.module_level(m2, k, f"imported as {name}: "):
+                return
+            return
+        for d in defs:
+            if d[0] == "assign":
+                self.expr(d[1], fn, mod, depth + 1)
+            elif d[0] == "unpack":
+                self.expr(d[1], fn, mod, depth + 1)
+            elif d[0] == "param":
+                a = fn.args
+                names = [x.arg for x in a.posonlyargs + a.args]
+                dflt = dict(zip(names[len(names) - len(a.defaults):], a.defaults))
+                dflt.update({k.arg: v for k, v in zip(a.kwonlyargs, a.kw_defaults) if v is not None})
+                if name in dflt and self.mutable_value(dflt[name]):
+                    self.found.append(f"mutable default argument {name}={ast.unparse(dflt[name])[:30]} of {fn.name}")
+                else:
+                    self.unresolved.append(f"parameter {name} of {fn.name}")
+            elif d[0] == "for":
+                self.expr(d[1], fn, mod, depth + 1)
+            else:
+                self.unresolved.append(f"binding of {name}")
+
+    def class_of(self, fn, mod):
+        for q, f in mod.functions.items():
+            if f is fn and "." in q and "<locals>" not in q.split(".")[0]:
+                return q.split(".")[0]
+        return None
+
+    def attribute(self, e, fn, mod, depth):
+        base = e.value
+        if isinstance(base, ast.Name) and base.id == "self":
+            cls = self.class_of(fn, mod)
+            node = mod.classes.get(cls) if cls else None
+            if node is not None:
+                for b in node.body:
+                    tgt = b.targets[0] if isinstance(b, ast.Assign) and len(b.targets) == 1 else (b.target if isinstance(b, ast.AnnAssign) else None)
+                    val = getattr(b, "value", None)
+                    if isinstance(tgt, ast.Name) and tgt.id == e.attr and val is not None and self.mutable_value(val) and "dataclass" not in " ".join(ast.unparse(d) for d in node.decorator_list):
+                        self.found.append(f"class attribute {cls}.{e.attr} = {ast.unparse(val)[:30]}")
+                for q, f in mod.functions.items():
+                    if q.startswith(cls + ".") and "<locals>" not in q:
+                        for n in own_walk(f):
+                            if isinstance(n, ast.Assign):
+                                for t in n.targets:
+                                    if isinstance(t, ast.Attribute) and t.attr == e.attr and isinstance(t.value, ast.Name) and t.value.id == "self":
+                                        self.expr(n.value, f, mod, depth + 1)
+                            elif isinstance(n, ast.AnnAssign) and isinstance(n.target, ast.Attribute) and n.target.attr == e.attr and n.value is not None:
+                                self.expr(n.value, f, mod, depth + 1)
+            return
+        # field of an object: where the object comes from, and what its constructor was given for that field
+        self.expr(base, fn, mod, depth + 1)
+        for ctor, cfn, cmod in self.constructors_of(base, fn, mod, depth):
+            cls = dotted(ctor.func).split(".")[-1]
+            given = next((k.value for k in ctor.keywords if k.arg == e.attr), None)
+            if given is not None:
+                self.expr(given, cfn, cmod, depth + 1)
+            else:
+                self.field_default(cls, e.attr, cmod)
+
+    def field_default(self, cls, attr, mod):
+        dt = loader.module(DT, self.repo)
+        for m in (mod, dt):
+            node = m.classes.get(cls)
+            if node is None:
+                continue
+            for b in node.body:
+                if isinstance(b, ast.AnnAssign) and isinstance(b.target, ast.Name) and b.target.id == attr and b.value is not None:
+                    if self.mutable_value(b.value):
+                        self.found.append(f"dataclass field default built once: {cls}.{attr} = {ast.unparse(b.value)[:30]}")
+                    elif isinstance(b.value, ast.Call) and dotted(b.value.func).split(".")[-1] == "field":
+                        for k in b.value.keywords:
+                            if k.arg == "default" and self.mutable_value(k.value):
+                                self.found.append(f"dataclass field default built once: {cls}.{attr}")
+            return
+
+    def constructors_of(self, e, fn, mod, depth, hops=0):
+        """Constructor calls (with their function / module) that may have built the object denoted by e."""
+        out = []
+        if hops > 3:
+            return out
+        if isinstance(e, ast.Call):
+            name = dotted(e.func).split(".")[-1]
+            if name[:1].isupper():
+                return [(e, fn, mod)]
+            g, gmod = self.resolve_function(e, fn, mod)
+            if g is not None:
+                for r in [n.value for n in own_walk(g) if isinstance(n, ast.Return) and n.value is not None]:
+                    out.extend(self.constructors_of(r, g, gmod, depth, hops + 1))
+            return out
+        if isinstance(e, ast.Name) and isinstance(fn, (ast.FunctionDef, ast.AsyncFunctionDef)):
+            for d in single_defs(fn, e.id):
+                if d[0] == "assign":
+                    out.extend(self.constructors_of(d[1], fn, mod, depth, hops + 1))
+                elif d[0] == "for":
+                    out.extend(self.constructors_of(d[1], fn, mod, depth, hops + 1))
+        return out
+
+    def resolve_function(self, call, fn, mod):
+        f = call.func
+        if isinstance(f, ast.Name):
+            if f.id in mod.functions:
+                return mod.functions[f.id], mod
+            m2, k = _module_of_import(mod, f.id, self.repo)
+            if m2 is not None and k in m2.functions:
+                return m2.functions[k], m2
+            return None, None
+        if isinstance(f, ast.Attribute):
+            cands = [(q, g) for q, g in mod.functions.items() if q.split(".")[-1] == f.attr and "<locals>" not in q]
+            if len(cands) == 1:
+                return cands[0][1], mod
+        return None, None
+
+    def call(self, e, fn, mod, depth):
+        name = dotted(e.func).split(".")[-1]
+        if name[:1].isupper() and name not in ("Path",):
+            return                                   # a constructor call: a fresh object (its fields: see attribute())
+        g, gmod = self.resolve_function(e, fn, mod)
+        if g is None:
+            self.unresolved.append(f"call {ast.unparse(e.func)[:30]}")
+            return
+        if any(ast.unparse(d).split("(")[0].split(".")[-1] in ("lru_cache", "cache", "cached_property") for d in g.decorator_list):
+            self.found.append(f"result of the cached function {g.name}")
+            return
+        rets = [n.value for n in own_walk(g) if isinstance(n, ast.Return) and n.value is not None]
+        gens = [n.value for n in own_walk(g) if isinstance(n, ast.Yield) and n.value is not None]
+        for r in rets + gens:
+            self.expr(r, g, gmod, depth + 1)
+
+
+def metadata_freshness_sites(repo, tier):
+    """The object whose path fields populate_from_path() fills must belong to this extraction alone: at every call site the
+    receiver is sliced backwards (locals, returns of package functions, attributes set in methods, constructor keywords and
+    dataclass defaults); reaching an object that outlives the call -- a module-level object, a mutable default argument, a
+    class attribute, a default built once, a cached result -- means results share state: path metadata of one extraction
+    would show up in another.  Such a site is `unknown` and decided by the native two-extraction replay."""
+    obls = []
+    n_sites = 0
+    for rel, mod in modules(repo).items():
+        ix = Index(mod)
+        per_fn = {}
+        for n in ast.walk(mod.tree):
+            if isinstance(n, ast.Call) and isinstance(n.func, ast.Attribute) and n.func.attr == "populate_from_path":
+                q, fnode = ix.enclosing(n)
+                per_fn.setdefault(q, []).append((n, fnode))
+        for q, sites in sorted(per_fn.items()):
+            for k, (call, fnode) in enumerate(sorted(sites, key=lambda x: (x[0].lineno, x[0].col_offset))):
+                n_sites += 1
+                oid = f"C04/{short(rel)}::{q}/call-pre#populate_from_path-receiver-belongs-to-this-extraction@{k}"
+                S = SharedSources(repo)
+                try:
+                    S.expr(call.func.value, fnode, mod)
+                except RecursionError:
+                    S.unresolved.append("recursion limit")
+                if S.found:
+                    o = ground_obligation(oid, False, f"{rel}:{call.lineno} {ast.unparse(call.func.value)} may be {S.found[0]}: its path fields are "
+                                                       f"shared between extractions", rel, definite=False)
+                    o["replay_hint"] = {"kind": "shared-metadata", "file": rel}
+                else:
+                    o = ground_obligation(oid, True, f"{rel}:{call.lineno} no object that outlives the extraction flows into {ast.unparse(call.func.value)}"
+                                          + (f" (slice stops at: {', '.join(sorted(set(S.unresolved))[:3])})" if S.unresolved else ""), rel)
+                obls.append(o)
+    obls.append(ground_obligation("C04/package/call-pre#populate_from_path-sites-scanned", n_sites >= 15, f"{n_sites} populate_from_path call sites", "package"))
+    return {"obligations": obls, "functions": []}
